@@ -24,3 +24,11 @@ OBLIGATIONS = [
 # symbolic constant/variable flags for both depth surfaces and assert that a variable min (max) depth surface is the one evaluated
 import C02 as _C02
 OBLIGATIONS = OBLIGATIONS + [dict(o, id=o['id'].replace('C02.frame', 'C11.use')) for o in _C02.OBLIGATIONS if o['id'].startswith('C02.frame') and not o['id'].endswith('.plume')]
+# the merge of corner defaults with user-listed points: the real Parameters::get(name, points) on a programmatically built rapidjson DOM
+_MERGE_TUS = ['c11_merge.cc', 'parameters'] + T1[1:]
+OBLIGATIONS = OBLIGATIONS + [dict(id='C11.merge', harness='c11_merge.cc', entry='h_c11_merge', mode='real', cases=[(l, 0) for l in range(14)] + [(0, 2), (1, 1), (6, 1), (2, 1)], expect=['without a table the single value (or the documented default) is used everywhere',
+    'a single value without points is used everywhere', 'the nodal table holds the polygon corners and every new listed point once', 'a listed point carries its listed value (later entries without points do not change it)', 'end'],
+    bounds='3 polygon corners, 0-3 table entries in 14 layouts (entries without points, listed corners, new points, a point listed twice, two points in one entry), all values symbolic; corners concrete and well separated, new points symbolic inside boxes disjoint from the corners and from each other; Cartesian, and spherical for four layouts',
+    tus=_MERGE_TUS, native=False, allow_throw=True, cflags=['-DRAPIDJSON_48BITPOINTER_OPTIMIZATION=0'], max_steps=4000000, fork_select=False,
+    stubs=['the JSON document is built by the harness through the rapidjson API (no text parsing, no schema validation)', 'rapidjson compiled with RAPIDJSON_48BITPOINTER_OPTIMIZATION=0 for the symbolic run'],
+    assumes=['coordinates non-zero (approx(0,0) is the known finding of C11.same)', 'distinct points are well separated'], outside=['parsing of the file, schema validation', 'coordinates that are approx-equal without being equal'])]
